@@ -10,7 +10,7 @@ Set Extraction AccessOpaque.
 Extraction "model.ml"
   cfg00 cfg10 cfg01 cfg11 mk_opts run_doc
   skip_ws find_quote scan_digits scan_identifier split_identifier lf_index
-  parse_int64 parse_double ratio_gcd string_get decode
+  parse_int64 parse_double ratio_gcd le_val eight_digits_check eight_digits_value string_get decode
   equal hash_value hash_cache has_duplicates compare_nodes isort no_ext_equal no_ext_hash
   sf_to_bits sf_of_bits strtod_model get_position
   Byte.of_N Byte.to_N N.of_nat N.to_nat Z.of_N Z.to_N.
